@@ -235,7 +235,7 @@ func init() {
 				out.put(mismatch{sig, det, c})
 			}
 		}
-		var tables *locCase
+		var tables, prevCase *locCase
 		err := readND(a[0], func(i int, raw []byte) error {
 			var c locCase
 			if err := jsonUnmarshal(raw, &c); err != nil {
@@ -296,6 +296,46 @@ func init() {
 						return nil
 					}
 				}
+			}
+			// carrier 2b: a heterogeneous batch [previous accepted body, this base block without items, this body]:
+			// every item of a batch is decoded from its own bytes only
+			if prevCase != nil {
+				type part struct {
+					body []byte
+					r    locView
+					bare bool
+				}
+				parts := []part{{prevCase.Body, prevCase.R, false}, {c.Body[:28], c.R, true}, {c.Body, c.R, false}}
+				hb := []byte{0, 3, 0}
+				for _, p := range parts {
+					hb = binary.BigEndian.AppendUint16(hb, uint16(len(p.body)))
+					hb = append(hb, p.body...)
+				}
+				if len(hb) <= 1023 {
+					var t7 model.T0x0704
+					if p := protect(func() { err = t7.Parse(jtBody(hb)) }); p != "" || err != nil || len(t7.Items) != 3 {
+						put("0x0704 mixed-batch-not-parsed", fmt.Sprint(p, err, len(t7.Items)), []locCase{*prevCase, c})
+						return nil
+					}
+					for k, p := range parts {
+						if f, d := cmpBase(p.r, t7.Items[k].T0x0200LocationItem); f != "" {
+							put("0x0704 mixed-batch "+f, fmt.Sprintf("item %d: %s", k, d), []locCase{*prevCase, c})
+							return nil
+						}
+						exp := p.r.Items
+						if p.bare {
+							exp = nil
+						}
+						if f, d := cmpItems(exp, t7.Items[k].T0x0200AdditionDetails); f != "" {
+							put("0x0704 mixed-batch "+f, fmt.Sprintf("item %d of [%x | base only | %x]: %s", k, []byte(prevCase.Body), []byte(c.Body), d), []locCase{*prevCase, c})
+							return nil
+						}
+					}
+				}
+			}
+			if len(c.R.Items) > 0 {
+				cc := c
+				prevCase = &cc
 			}
 			// carrier 3: the basic block at bytes 8..35 of a 0x0801
 			b801 := append([]byte{0, 0, 0, 9, 0, 0, 1, 2}, c.Body[:28]...)
